@@ -64,6 +64,8 @@ def run(ctx):
     else:
         dists = list(range(0, 141)) + list(range(32755, 32776))
         orgs = [0, 0x7c00, 0xfff0]
+    import c03
+    mcst = c03.mc(ctx, 4 if quick else 5)
     cells = gen(ctx, dists, orgs)
     R = flow.Runner(ctx)
     for c in cells:
@@ -85,6 +87,7 @@ def run(ctx):
                 "each cell is one program (NOP; branch; RESB d; target). non-trivial = assembled without diagnostic" % (
                     "0..140 and 32755..32775" if not quick else str(dists), [hex(o) for o in orgs]),
         "samples": [R.cases[i]["src"] for i in (0, len(R.cases) // 3, len(R.cases) - 1)],
+        "model_checking": "MC_Asm: Inv_C04 (every branch chunk decodes to the named condition and lands on the real address of its target) holds in all %d states of all programs of length <= %d" % (mcst["distinct"], 4 if quick else 5),
         "tlc_runs": ctx.tlc_stats[:8], "exhaustive": True,
     }
     return report.finish(ctx, "C04", viol, known, other, R, cov, ASSUME)
